@@ -399,11 +399,21 @@ def r6(ctx):
     term = ee.find_method("term")
     ctx.require(term is not None, "ExpressionEvaluator.term missing")
     bases = suffixes = None
+    from ..decision import _class_constant, _module_constant
+
+    def literal(v):
+        # the table may have been hoisted to a class-level or module-level constant
+        if isinstance(v, ast.Attribute) and isinstance(v.value, ast.Name):
+            return _class_constant(term, v.value.id, v.attr) or v
+        if isinstance(v, ast.Name):
+            return _module_constant(term, v.id) or v
+        return v
+
     for n in walk_no_nested(term.node):
-        if isinstance(n, ast.Assign) and isinstance(n.value, ast.Dict) and u(n.targets[0]) == "bases":
-            bases = {k: const(v) for k, v in dict_literal(n.value).items()}
-        if isinstance(n, ast.Assign) and isinstance(n.value, ast.List) and u(n.targets[0]) == "suffixes":
-            suffixes = str_list(n.value)
+        if isinstance(n, ast.Assign) and u(n.targets[0]) == "bases" and isinstance(literal(n.value), ast.Dict):
+            bases = {k: const(v) for k, v in dict_literal(literal(n.value)).items()}
+        if isinstance(n, ast.Assign) and u(n.targets[0]) == "suffixes" and isinstance(literal(n.value), (ast.List, ast.Tuple)):
+            suffixes = str_list(literal(n.value))
     ctx.require(bases is not None and suffixes is not None, "term(): `bases` / `suffixes` literals not found")
     want = {"0x": 16, "0X": 16, "0b": 2, "0B": 2}
     for k, v in want.items():
